@@ -1,10 +1,10 @@
 (* C13/Props.v — the property theorems, nothing else.
    Model: C13/Model.v (src/shlex.py, src/callbacks.py Tokenizer/tokenize, utils.str.dqrepr, CPython unicode_escape),
-   C13/Utf8.v (strict UTF-8, Latin-1).  Proofs: Utf8.v, Lemmas.v, Roundtrip.v, Dqrepr.v, Brackets.v, Nested.v.
+   C13/Utf8.v (strict UTF-8, Latin-1).  Proofs: Utf8.v, Lemmas.v, Roundtrip.v, Dqrepr.v, Brackets.v, Nested.v, Render.v.
    [named] is the unicodedata name table behind \N{...}: any function. *)
 From Coq Require Import List NArith.
 Import ListNotations.
-Require Import Base.Wire Base.PyStr C13.Utf8 C13.Model C13.Lemmas C13.Roundtrip C13.Dqrepr C13.Brackets C13.Nested.
+Require Import Base.Wire Base.PyStr C13.Utf8 C13.Model C13.Lemmas C13.Roundtrip C13.Dqrepr C13.Brackets C13.Nested C13.Render.
 
 (* Tokenising any text (any code points, lone surrogates included) under any
    configuration yields a tree of string tokens or SyntaxError, never another failure. *)
@@ -39,47 +39,65 @@ Theorem C13_quote_roundtrip :
 Proof. exact quote_roundtrip. Qed.
 Print Assumptions C13_quote_roundtrip.
 
-(* Full statement of the dqrepr law (what Alias/Scheduler/Conditional rely on):
-     forall args, tokenize named c (join [SP] (map dqrepr args)) = Ok (map Leaf args).
-   The pinned code violates it (finding F15): witness outside the domain dq_dom. *)
-Theorem C13_dqrepr_roundtrip_refuted :
-  forall named (c : cfg), mem DQ (c_quotes c) = true ->
-  exists args, forallb dq_dom args = false /\
-               tokenize named c (join [SP] (map dqrepr args)) <> Ok (map Leaf args).
-Proof. exact dqrepr_roundtrip_refuted. Qed.
-Print Assumptions C13_dqrepr_roundtrip_refuted.
 
-(* PARTIAL.  The intended on-domain theorem is
-     forall args, Forall (fun a => dq_dom a = true) args ->
-       tokenize named c (join [SP] (map dqrepr args)) = Ok (map Leaf args)
-   (dq_dom: the argument is ASCII, or has a code point >= 256, or is not valid UTF-8 when read as bytes).
-   Proved here only on the sub-domain of printable-ASCII arguments (32..126), where
-   dqrepr coincides with minimal quoting; the rest of dq_dom (control characters written
-   \xHH, \t \n \r, and \uHHHH / \UHHHHHHHH escapes) is explored by the differential run only. *)
-Theorem C13_dqrepr_roundtrip_on_domain_partial :
+(* utils.str.dqrepr is an exact inverse of the tokeniser (what Alias/Scheduler/Conditional-style
+   re-serialisation needs): every list of argument strings over all code points a Python str can
+   hold (<= U+10FFFF: NUL, CR, LF, controls, brackets, pipes, quotes, backslashes, Latin-1, lone
+   surrogates, non-BMP), each written with dqrepr, tokenises back to exactly that list, one token
+   per argument, under every configuration whose quote set contains the double quote.
+   This is the full statement: finding C13.F15 (Latin-1 text that is valid UTF-8 was re-decoded)
+   is repaired, so there is no domain restriction and no _refuted theorem any more. *)
+Theorem C13_dqrepr_roundtrip :
   forall named (c : cfg) (args : list str),
-  mem DQ (c_quotes c) = true -> Forall (fun a => forallb printable a = true) args ->
-  Forall (fun a => dq_dom a = true) args /\
+  mem DQ (c_quotes c) = true -> Forall (fun a => forallb valid_cp a = true) args ->
   tokenize named c (join [SP] (map dqrepr args)) = Ok (map Leaf args).
-Proof. exact dqrepr_roundtrip_printable. Qed.
-Print Assumptions C13_dqrepr_roundtrip_on_domain_partial.
+Proof. exact dqrepr_roundtrip. Qed.
+Print Assumptions C13_dqrepr_roundtrip.
 
-(* PARTIAL (token level).  Unquoted brackets produce exactly the corresponding nesting:
-   for every tree l of bare words (no depth bound), the main loop of Tokenizer.tokenize run on
-   the token stream  toks l  ('[' children ']' for a node, the word for a leaf) returns l.
-   [wf] = every leaf is a bare token (not a bracket, not "|", not starting with a quote character).
-   Not proved: that the lexer maps the rendered text to exactly  toks l  (Example brackets_example
-   checks one instance; the harness checks it on generated trees against the implementation). *)
-Theorem C13_brackets_tokens_partial :
-  forall named t lb rb (l : list tree),
-  brk t = Some (lb, rb) -> N.eqb lb rb = false -> N.eqb lb gen.T13.PIPE = false ->
-  forallb (wf t lb rb) l = true ->
-  top named t (S (length (flat_map (toks lb rb) l))) (flat_map (toks lb rb) l) None [] [] = Ok l.
-Proof. exact brackets_tokens. Qed.
-Print Assumptions C13_brackets_tokens_partial.
+(* Unquoted brackets produce exactly the corresponding nesting.  For every tree l of bare words,
+   of any depth and width (wfc: every leaf is a non-empty word whose characters are neither whitespace
+   nor separators of the configuration), the text render_top l (words and sub-commands separated by one
+   space, a node written  lb children rb) tokenises to exactly l.  Holds for every bracket pair that is
+   lexically a bracket (all of ValidBrackets.validStrings: lemma valid_brackets_lex_ok in Nested.v),
+   every pipe setting and quote set. *)
+Theorem C13_brackets :
+  forall named (c : cfg) lb rb (l : list tree),
+  c_nested c = true -> c_brackets c = Some (lb, rb) ->
+  is_ws lb = false -> is_ws rb = false ->
+  mem lb (c_quotes c) = false -> mem rb (c_quotes c) = false ->
+  N.eqb lb rb = false -> N.eqb lb gen.T13.PIPE = false ->
+  forallb (wfc (tk_of c)) l = true ->
+  tokenize named c (render_top lb rb l) = Ok l.
+Proof. exact brackets_render. Qed.
+Print Assumptions C13_brackets.
+
+(* Unbalanced brackets give SyntaxError, not a tree: (1) text_unclosed = balanced trees pre, then an opening
+   bracket followed by balanced trees l and the end of the text (Missing "]"); (2) text_spurious = balanced
+   trees pre, then a closing bracket that closes nothing, followed by ANY text (Spurious "]"). *)
+Theorem C13_brackets_unbalanced :
+  forall named (c : cfg) lb rb (pre l : list tree) (rest : str),
+  c_nested c = true -> c_brackets c = Some (lb, rb) ->
+  is_ws lb = false -> is_ws rb = false ->
+  mem lb (c_quotes c) = false -> mem rb (c_quotes c) = false ->
+  N.eqb lb rb = false -> N.eqb lb gen.T13.PIPE = false -> N.eqb rb gen.T13.PIPE = false ->
+  forallb (wfc (tk_of c)) pre = true -> forallb (wfc (tk_of c)) l = true ->
+  tokenize named c (text_unclosed lb rb pre l) = Raise SyntaxError
+  /\ tokenize named c (text_spurious lb rb pre rest) = Raise SyntaxError.
+Proof. exact brackets_unbalanced. Qed.
+Print Assumptions C13_brackets_unbalanced.
+
+(* With nesting disabled (supybot.commands.nested off, or brackets set to the empty string) brackets are
+   literal: any words -- which may now contain bracket characters -- come back as a flat list. *)
+Theorem C13_brackets_literal :
+  forall named (c : cfg) (ws : list str),
+  c_nested c = false \/ c_brackets c = None ->
+  Forall (fun w => word (tk_of c) w = true) ws ->
+  tokenize named c (join [SP] ws) = Ok (map Leaf ws).
+Proof. exact brackets_literal. Qed.
+Print Assumptions C13_brackets_literal.
 
 (* The quote round trip wherever the arguments are placed: n opening brackets, the
-   minimally quoted arguments, n closing brackets (nested_text) tokenise to the n-fold
+   minimally quoted arguments, n closing brackets (nested_mq) tokenise to the n-fold
    nesting of exactly those arguments — for every depth n, every bracket pair that is
    lexically a bracket (all of ValidBrackets.validStrings are: lemma valid_brackets_lex_ok),
    every pipe setting, every quote set containing the double quote and neither bracket,
@@ -92,6 +110,18 @@ Theorem C13_quote_roundtrip_nested :
   mem lb (c_quotes c) = false -> mem rb (c_quotes c) = false ->
   N.eqb lb rb = false -> N.eqb lb gen.T13.PIPE = false ->
   Forall (fun a => forallb scalar a = true) args ->
-  tokenize named c (nested_text lb rb n args) = Ok (nest n (map Leaf args)).
+  tokenize named c (nested_mq lb rb n args) = Ok (nest n (map Leaf args)).
 Proof. exact quote_roundtrip_nested. Qed.
 Print Assumptions C13_quote_roundtrip_nested.
+
+(* The same with dqrepr (what a plugin re-serialising arguments into a nested command does): for all code points. *)
+Theorem C13_dqrepr_roundtrip_nested :
+  forall named (c : cfg) lb rb (n : nat) (args : list str),
+  c_nested c = true -> c_brackets c = Some (lb, rb) -> mem DQ (c_quotes c) = true ->
+  is_ws lb = false -> is_ws rb = false ->
+  mem lb (c_quotes c) = false -> mem rb (c_quotes c) = false ->
+  N.eqb lb rb = false -> N.eqb lb gen.T13.PIPE = false ->
+  Forall (fun a => forallb valid_cp a = true) args ->
+  tokenize named c (nested_dq lb rb n args) = Ok (nest n (map Leaf args)).
+Proof. exact dqrepr_roundtrip_nested. Qed.
+Print Assumptions C13_dqrepr_roundtrip_nested.
